@@ -406,6 +406,23 @@ def sh_enc(ver, rnd, sid, suite, comp, exts):
     return rt_hex(hello)
 
 
+def hrr_enc(ver, rnd, sid, suite, comp, exts):
+    from cryptodatahub.tls.algorithm import TlsCipherSuite, TlsCompressionMethod
+    from cryptoparser.tls.subprotocol import TlsHandshakeHelloRetryRequest, TlsHandshakeHelloRandom, TlsSessionIdVector
+    from cryptoparser.tls.extension import TlsExtensionsServer
+    eb = _exts_bytes(exts)
+    ext_objs = TlsExtensionsServer.parse_exact_size(len(eb).to_bytes(2, 'big') + eb)
+    hello = TlsHandshakeHelloRetryRequest(
+        protocol_version=_version(int(ver)),
+        random_bytes=TlsHandshakeHelloRandom.parse_exact_size(bytes.fromhex(rnd)),
+        session_id=TlsSessionIdVector(list(bytes.fromhex('' if sid == '-' else sid))),
+        compression_method=_member_or_invalid(TlsCompressionMethod, int(comp), 1),
+        cipher_suite=_member_or_invalid(TlsCipherSuite, int(suite), 2),
+        extensions=ext_objs,
+    )
+    return rt_hex(hello)
+
+
 def cert_enc(certs):
     from cryptoparser.tls.subprotocol import TlsHandshakeCertificate, TlsCertificates, TlsCertificate
     return rt_hex(TlsHandshakeCertificate(TlsCertificates([TlsCertificate(bytes.fromhex(c)) for c in ([] if certs == '-' else certs.split(','))])))
@@ -1428,7 +1445,7 @@ COMMANDS = {
     'rsablob': blob_cmd(rsa_blob), 'dssblob': blob_cmd(dss_blob), 'edblob': blob_cmd(ed_blob), 'ecblob': blob_cmd(ec_blob),
     'keytag': keytag_cmd, 'dsenc': ds_enc, 'mxenc': mx_enc, 'mxdec': mx_dec, 'cookiepair': cookiepair_cmd, 'cookieenc': cookieenc_cmd, 'cookieparams': cookieparams_cmd, 'nameenc': name_enc, 'txtenc': txt_enc, 'rrsigenc': rrsig_enc,
     'dnskeyrsaenc': dnskey_rsa_enc, 'dnskeyecenc': dnskey_ec_enc, 'dnskeyedenc': dnskey_ed_enc, 'dnskeydec': dnskey_dec,
-    'chenc': ch_enc, 'ssl2chenc': ssl2_ch_enc, 'ssl2bigrec': ssl2_big_record, 'ssl2shenc': ssl2_sh_enc, 'chdec': ch_dec, 'ja3impl': ja3_cmd, 'shenc': sh_enc, 'certenc': cert_enc, 'shdenc': shd_enc, 'certreqenc': certreq_enc, 'certreqdec': certreq_dec, 'certstenc': certst_enc, 'certstdec': certst_dec,
+    'chenc': ch_enc, 'ssl2chenc': ssl2_ch_enc, 'ssl2bigrec': ssl2_big_record, 'ssl2shenc': ssl2_sh_enc, 'chdec': ch_dec, 'ja3impl': ja3_cmd, 'shenc': sh_enc, 'hrrenc': hrr_enc, 'certenc': cert_enc, 'shdenc': shd_enc, 'certreqenc': certreq_enc, 'certreqdec': certreq_dec, 'certstenc': certst_enc, 'certstdec': certst_dec,
     'recenc': rec_enc, 'alertenc': alert_enc, 'ccsenc': ccs_enc, 'extenc': ext_enc,
     'pframe': p_frame, 'xframe': x_frame, 'mframe': m_frame, 'cframe': c_frame,
     'popq': p_opq, 'copq': c_opq,
